@@ -17,6 +17,10 @@ ASAN_ENV = dict(os.environ, ASAN_OPTIONS="detect_leaks=1:abort_on_error=0:exitco
 def oracle_no_stray(cmd, line):
     if line.startswith("CRASH"):
         return "crash-or-sanitizer-report"
+    if cmd.startswith("fail 0 nxmove") and not line.rstrip().endswith("allocs=0"):
+        return "noexcept-operation-allocates"
+    if cmd.startswith("vecgrow") and "nothrow_move=1" not in line:
+        return "move-constructor-not-noexcept"
     if line.startswith("EXC other") and "bad-arity" not in line:
         return "stray-exception-type"
     if line.startswith("EXC unknown"):
@@ -92,6 +96,10 @@ def size_cases(ctx, r):
             for pre in ["%", "%4", "a", "/", "C", "\\\\h\\", "8"]:
                 if cmd.startswith("set 1"): lines.append("parse 1 %s -" % tok("file:///C:/p?q#f" if "pathname" in cmd else "http://u:p@h:8/p?q#f"))
                 lines.append(cmd % tok_units(e, S(pre) + [c], "v"))
+    # the noexcept operations (move constructor, swap) must not allocate: an allocation inside them turns memory
+    # exhaustion into std::terminate() instead of bad_alloc
+    for u in ["https://example.org/a/long/long/long/long/long/long/long/long/long/path?aaaaaaaaaaaaaaaaaaaaaaaaaaaaa=1#fragment", "a:b", "http://h/"]:
+        lines.append("parse 0 %s -" % tok(u)); lines.append("fail 0 nxmove 0"); lines.append("sp 0"); lines.append("fail 0 nxmove 0"); lines.append("vecgrow 0 5")
     return [Case(lines[i:i + 200], "sizes") for i in range(0, len(lines), 200)]
 
 def run_c04(ctx, P):
@@ -287,7 +295,9 @@ def run_c19(ctx, P):
         shared += ["pctdec %s" % tok("%FF%FEx%C3" + "%80" * (i % 5)), "urlenc_parse 1 %s" % tok("a=%FF%FF&b=%C3&c=%ED%A0%80" + "z" * i),
                    "usp_new 0 %s" % tok("z=%FF&y=2&x=%C3(&\uffff=1&\U00010000=2"), "usp_sort 0", "host %s" % tok("b\u00fccher%d.example" % i),
                    "parse 1 %s -" % tok("file:///a%FFb/%C3"), "tofile 1 posix", "ipv6ser 0 0 0 %d 0 0 0 1" % i, "ipv4ser %d" % (i * 16843009),
-                   "parse 2 %s -" % tok("http://[1:2::%x]:%d/" % (i, 1000 + i)), "set 2 port %s" % tok(str(2000 + i)), "fromfile 3 windows %s" % tok("C:\\dir %d\\\u00fc" % i)]
+                   "parse 2 %s -" % tok("http://[1:2::%x]:%d/" % (i, 1000 + i)), "set 2 port %s" % tok(str(2000 + i)), "fromfile 3 windows %s" % tok("C:\\dir %d\\\u00fc" % i),
+                   "parse 3 %s -" % tok("blob:https://host-number-%d.example:8443/uuid-%d" % (i, i)), "get 3", "can_parse 1 %s -" % tok("http://[1:2::%x]/p" % i),
+                   "can_parse 1 %s -" % tok("ws://b\u00fccher%d.example/" % i), "fmt 2 %d l" % (i % 20)]
     ctx.tier = ctx_tier
     rounds = scale(ctx, 12, 120)
     env = dict(os.environ, TSAN_OPTIONS="halt_on_error=1:exitcode=96:second_deadlock_stack=1")
@@ -360,6 +370,12 @@ FAULT_OPS = [
     (["parse 0 %s -" % tok("http://h/p?aaaaaaaaaaaaaaaaaaaaaaaaaaaaa=1&bbbbbbbbbbbbbbbbbbbbbbbbbbbbbbbbbbbbbb=2"), "parse 1 %s -" % tok("http://x/?c=3"), "sp 1"], "move 1 0", None),
     (["parse 0 %s -" % tok("http://h/p?aaaaaaaaaaaaaaaaaaaaaaaaaaaaa=1&bbbbbbbbbbbbbbbbbbbbbbbbbbbbbbbbbbbbbb=2"), "sp 0"], "sp_snapshot 0 1", None),
     (["usp_new 0 %s" % tok("aaaaaaaaaaaaaaaaaaaaaaaaaaaaa=1&bbbbbbbbbbbbbbbbbbbbbbbbbbbbbbbbbbbbbb=2"), "usp_new 1 %s" % tok("c=3")], "usp_assign 1 0", None),
+    # the noexcept operations (move constructor, swap) on a long URL with and without a params object: they must not allocate at all
+    (["parse 0 %s -" % tok("https://example.org/a/long/long/long/long/long/long/long/long/long/path?aaaaaaaaaaaaaaaaaaaaaaaaaaaaa=1#fragment")], "nxmove 0", 0),
+    (["parse 0 %s -" % tok("https://example.org/a/long/long/long/long/long/long/long/long/long/path?aaaaaaaaaaaaaaaaaaaaaaaaaaaaa=1#fragment"), "sp 0"], "nxmove 0", 0),
+    (["parse 0 %s -" % tok("http://h/a/b/c/d/e/f/g/h/i/j/k/l/m/n/o/p/q/r/s/t/u/v/w/x/y/z?query-long-enough-to-be-on-the-heap=1")], "parse 1 %s 0" % tok(""), None),
+    (["parse 0 %s -" % tok("http://h/a/b/c/d/e/f/g/h/i/j/k/l/m/n/o/p/q/r/s/t/u/v/w/x/y/z?query-long-enough-to-be-on-the-heap=1")], "parse 1 %s 0" % tok("?q"), None),
+    (["parse 0 %s -" % tok("http://h/a/b/c/d/e/f/g/h/i/j/k/l/m/n/o/p/q/r/s/t/u/v/w/x/y/z?query-long-enough-to-be-on-the-heap=1")], "parse 1 %s 0" % tok("other.html"), None),
     (["parse 0 %s -" % tok("http://h/p?aaaaaaaaaaaaaaaaaaaaaaaaaaaaa=1"), "sp 0", "parse 1 %s -" % tok("http://x/?bbbbbbbbbbbbbbbbbbbbbbbbbbbbbbbbb=2"), "sp 1"], "swap 0 1", None),
     ([], "host %s" % tok("bücherbbbbbbbbbbbbbbbbbbbbbbbbbbbbbbbbbbbbbbbbbbbbbbbbbbbb.example"), None),
     ([], "pctenc component %s" % tok("ü" * 40), None),
@@ -387,6 +403,10 @@ def run_c20(ctx, P):
         m = re.search(r"allocs=(\d+)", out[-1] if out else "")
         k = int(m.group(1)) if m else 0
         ops += 1
+        if op.startswith("nxmove") and k != 0:
+            rp = vlib.write_replay(ctx.pid, "noexcept_allocates_%d" % ops, {"kind": "noexcept-operation-allocates", "commands": setup + [op], "allocations": k,
+                                   "meaning": "the move constructor / swap of upa::url are noexcept: an allocation inside them turns memory exhaustion into std::terminate()"})
+            res["violations"].append((rp, "a noexcept operation (move constructor / swap) performs %d allocation(s)" % k, False))
         limit = k if ctx.tier == "thorough" else min(k, 24)
         for n in range(1, limit + 1):
             cases.append((Case(setup + ["fail %d %s" % (n, op)] + FOLLOW, "fault n=%d %s" % (n, op.split(" ")[0])), len(setup), atomic, op))
